@@ -208,6 +208,10 @@ pub struct Effects {
     pub exclude_response_status_codes: Option<bool>,
     /// (action, header, value)
     pub header_filters: Vec<(String, String, String)>,
+    /// emit unit ids on the header filters ("id": "u-<rule>-h<i>", "target_hash": "hdr-<lower-case name>"),
+    /// so that the unit-trace branches of the header actions run in the analyses
+    #[serde(default)]
+    pub header_filter_units: bool,
     /// raw BodyFilter JSON objects
     pub body_filters: Vec<Value>,
     pub log_override: Option<bool>,
@@ -363,7 +367,14 @@ impl RuleSpec {
                 Value::Array(
                     e.header_filters
                         .iter()
-                        .map(|(a, h, v)| json!({"action": a, "header": h, "value": v}))
+                        .enumerate()
+                        .map(|(i, (a, h, v))| {
+                            if e.header_filter_units {
+                                json!({"action": a, "header": h, "value": v, "id": format!("u-{}-h{i}", self.id), "target_hash": format!("hdr-{}", h.to_lowercase())})
+                            } else {
+                                json!({"action": a, "header": h, "value": v})
+                            }
+                        })
                         .collect(),
                 ),
             );
